@@ -425,5 +425,23 @@ def recognise_add_merge(fi: FuncInfo, rule: str) -> Tuple[Optional[MergeRoles], 
                     vals.append('?')
         good &= req(vals == [0], f'cursor {tag} starts at 0', fi.node, f"{cur} initialised to {vals}",
                     f'cursor{tag}-init')
+    # tail copy: `if <operand 1 not exhausted>: ... elif <operand 2 not exhausted>: ... else: both ended`, with exactly the
+    # two bound tests of the loop condition, in that order
+    tails = [it for it in post if it[0] == 'if' and len(it[1]) == 2]
+    if tails:
+        tail = tails[0]
+        try:
+            g1 = C.canon_cond(tail[1][0][0], env)
+            g2 = C.canon_cond(tail[1][1][0], env)
+            l1 = C.canon_cond(conj[0], env)
+            l2 = C.canon_cond(conj[1], env)
+            good &= req(g1 == l1, 'tail copy, first alternative: taken exactly when operand 1 still has pieces (the first bound '
+                        'test of the loop)', tail[1][0][0], f"found {C.show(g1)}, loop test {C.show(l1)}", 'tail-guard1')
+            good &= req(g2 == l2, 'tail copy, second alternative: taken exactly when operand 2 still has pieces (the second bound '
+                        'test of the loop)', tail[1][1][0], f"found {C.show(g2)}, loop test {C.show(l2)}", 'tail-guard2')
+        except C.CanonError as e:
+            obs.append(inconclusive(rule, 'tail-copy guards canonicalisable', fi.loc(tail[-1]), str(e), construct=fn))
+    else:
+        obs.append(inconclusive(rule, 'tail-copy if/elif/else found after the merge loop', fi.loc(), construct=fn))
     roles.ok = good
     return roles, obs
